@@ -422,6 +422,16 @@ Definition lam_float {F : Type} (x : lamv F) : res F := match x with LamScalar v
 Definition lam_take2 {F : Type} (x : lamv F) (rows cols : list Z) : res (list F) :=
   match x with LamArray a => np_take2 a rows cols | _ => Raise "TypeError" end.
 
+(* the fields of ModelState / ClusterParameters that cluster_metrics.calinski_harabasz_index reads *)
+Record ch_cluster (F : Type) : Type := mk_ch_cluster { cc_size : Z; cc_member_points : list Z; cc_stacked_data_mean : list F }.
+Arguments mk_ch_cluster {F} _ _ _.
+Arguments cc_size {F} _.
+Arguments cc_member_points {F} _.
+Arguments cc_stacked_data_mean {F} _.
+Record ch_model (F : Type) : Type := mk_ch_model { cm_clusters : list (ch_cluster F) }.
+Arguments mk_ch_model {F} _.
+Arguments cm_clusters {F} _.
+
 (* ---- facts used by every equivalence proof ---- *)
 Lemma bind_ret {A B : Type} (a : A) (f : A -> res B) : bind (Ret a) f = f a.
 Proof. reflexivity. Qed.
